@@ -176,6 +176,39 @@ Proof.
   - eauto.
 Qed.
 
+(* From here to the end of module CoGP every lemma is GENERIC in the IRI comparison [ideq a b cs] = a.Equals(b, cs)
+   (builder b47; see Proofs/EqualP.v): the definitions are those of module CoG of Model/Coll.v over module EqG of
+   Model/Equal.v; reflexivity and symmetry of the comparison is all that is used.  After the module the same names
+   are re-established for iri_eqb by instantiation; Proofs/CollUP.v instantiates with iri_equ. *)
+Module CoGP.
+Section IdRel.
+  Variable ideq : bytes -> bytes -> bool -> bool.
+  Hypothesis ideq_refl : forall s cs, ideq s s cs = true.
+  Hypothesis ideq_sym : forall a b cs, ideq a b cs = ideq b a cs.
+  Local Notation items_eqb := (CoG.items_eqb ideq).
+  Local Notation iri_member_eqb := (CoG.iri_member_eqb ideq).
+  Local Notation ic_contains := (CoG.ic_contains ideq).
+  Local Notation ic_append := (CoG.ic_append ideq).
+  Local Notation ic_remove := (CoG.ic_remove ideq).
+  Local Notation iris_contains_item := (CoG.iris_contains_item ideq).
+  Local Notation iris_append := (CoG.iris_append ideq).
+  Local Notation c_step := (CoG.c_step ideq).
+  Local Notation c_contains := (CoG.c_contains ideq).
+  Local Notation c_run := (CoG.c_run ideq).
+  Local Notation cmp_one := (EqG.cmp_one ideq).
+  Local Notation all_cmp := (EqG.all_cmp ideq).
+  Local Notation object_equals := (EqG.object_equals ideq).
+  Local Notation equals_method := (EqG.equals_method ideq).
+  Local Notation object_branch := (EqG.object_branch ideq).
+  Local Notation items_equal_body := (EqG.items_equal_body ideq).
+  Local Notation items_equal_c := (EqG.items_equal_c ideq).
+  Local Notation items_equal := (EqG.items_equal ideq).
+  Local Notation ieq := (EqGI.ieq ideq).
+  Local Notation ieq_refl := (EqGP.ieq_refl ideq ideq_refl).
+  Local Notation ieq_unfold := (EqGP.ieq_unfold ideq).
+  Local Notation ieq_iris := (EqGP.ieq_iris ideq).
+  Local Notation ieq_mism := (EqGP.ieq_mism ideq ideq_sym).
+
 (* ---- histories ---- *)
 Section Hist.
   Variable pool : list item.
@@ -248,7 +281,7 @@ Section IrisHist.
   Variable ids : list bytes.
   Let n := length ids.
   Let get (i : nat) : bytes := nth i ids [].
-  Hypothesis eq_ids : forall i j, i < n -> j < n -> iri_eqb (get j) (get i) false = Nat.eqb i j.
+  Hypothesis eq_ids : forall i j, i < n -> j < n -> ideq (get j) (get i) false = Nat.eqb i j.
 
   Lemma iris_append_spec s i : Forall (fun j => j < n) s -> i < n ->
     g_append1 bytes iri_member_eqb (map get s) (get i) = map get (s_append s i).
@@ -273,11 +306,11 @@ Proof. unfold items_eqb. rewrite ieq_refl. reflexivity. Qed.
 
 Lemma ieq_obj_iri p k fs q a :
   k <> KLink -> is_nil (IIri q a) = false ->
-  ieq (IObj p k fs) (IIri q a) = Ok (iri_eqb (get_str F_ID fs) a false) /\
-  ieq (IIri q a) (IObj p k fs) = Ok (iri_eqb (get_str F_ID fs) a false).
+  ieq (IObj p k fs) (IIri q a) = Ok (ideq (get_str F_ID fs) a false) /\
+  ieq (IIri q a) (IObj p k fs) = Ok (ideq (get_str F_ID fs) a false).
 Proof.
   intros Hk Hn.
-  assert (E1 : ieq (IObj p k fs) (IIri q a) = Ok (iri_eqb (get_str F_ID fs) a false)).
+  assert (E1 : ieq (IObj p k fs) (IIri q a) = Ok (ideq (get_str F_ID fs) a false)).
   { rewrite ieq_unfold. unfold items_equal_body. rewrite Hn. cbn [is_nil orb].
     unfold needs_swap. cbn [is_iri andb]. unfold typ at 1. cbn [get_type]. rewrite iri_not_object_type.
     reflexivity. }
@@ -288,7 +321,7 @@ Qed.
 
 Lemma items_eqb_distinct x y :
   has_identity x = true -> has_identity y = true ->
-  iri_eqb (lnk x) (lnk y) false = false -> iri_eqb (lnk x) (lnk y) true = false ->
+  ideq (lnk x) (lnk y) false = false -> ideq (lnk x) (lnk y) true = false ->
   items_eqb x y = false.
 Proof.
   intros Hx Hy F T. unfold items_eqb.
@@ -298,7 +331,7 @@ Proof.
   - simpl in Hx, Hy. apply negb_true_iff in Hx. apply negb_true_iff in Hy.
     assert (Hk : k' <> KLink) by (intro; subst; discriminate).
     destruct (ieq_obj_iri q k' gs p a Hk Hx) as [_ E]. rewrite E.
-    unfold lnk in F. simpl in F. rewrite iri_eqb_sym. rewrite F. reflexivity.
+    unfold lnk in F. simpl in F. rewrite ideq_sym. rewrite F. reflexivity.
   - simpl in Hx, Hy. apply negb_true_iff in Hx. apply negb_true_iff in Hy.
     assert (Hk : k <> KLink) by (intro; subst; discriminate).
     destruct (ieq_obj_iri p k fs q b Hk Hy) as [E _]. rewrite E.
@@ -313,8 +346,8 @@ Qed.
 Definition distinct_pool (pool : list item) : bool :=
   forallb has_identity pool &&
   forallb (fun i => forallb (fun j =>
-      Nat.eqb i j || (negb (iri_eqb (lnk (pget pool i)) (lnk (pget pool j)) false) &&
-                      negb (iri_eqb (lnk (pget pool i)) (lnk (pget pool j)) true)))
+      Nat.eqb i j || (negb (ideq (lnk (pget pool i)) (lnk (pget pool j)) false) &&
+                      negb (ideq (lnk (pget pool i)) (lnk (pget pool j)) true)))
     (seq 0 (length pool))) (seq 0 (length pool)).
 
 Lemma distinct_pool_eq pool : distinct_pool pool = true ->
@@ -351,6 +384,28 @@ Proof.
   { split; constructor. }
   simpl in E1. rewrite <- E3. split; [exact E1|exact E2].
 Qed.
+
+End IdRel.
+End CoGP.
+
+Notation item_container := CoGP.item_container.
+Notation s_run := CoGP.s_run.
+Notation has_identity := CoGP.has_identity.
+Notation distinct_pool := (CoGP.distinct_pool iri_eqb).
+Ltac inst_co L :=
+  first [ exact (L iri_eqb iri_eqb_refl iri_eqb_sym) | exact (L iri_eqb iri_eqb_refl) | exact (L iri_eqb iri_eqb_sym)
+        | exact (L iri_eqb) | exact L ].
+Definition c_step_spec := ltac:(inst_co CoGP.c_step_spec).
+Definition c_contains_spec := ltac:(inst_co CoGP.c_contains_spec).
+Definition refines := ltac:(inst_co CoGP.refines).
+Definition iris_append_spec := ltac:(inst_co CoGP.iris_append_spec).
+Definition iris_contains_spec := ltac:(inst_co CoGP.iris_contains_spec).
+Definition items_eqb_refl := ltac:(inst_co CoGP.items_eqb_refl).
+Definition ieq_obj_iri := ltac:(inst_co CoGP.ieq_obj_iri).
+Definition items_eqb_distinct := ltac:(inst_co CoGP.items_eqb_distinct).
+Definition distinct_pool_eq := ltac:(inst_co CoGP.distinct_pool_eq).
+Definition distinct_pool_not_nil := ltac:(inst_co CoGP.distinct_pool_not_nil).
+Definition refines_items_equal := ltac:(inst_co CoGP.refines_items_equal).
 
 Lemma s_other_members s i j : i <> j ->
   s_mem (s_append s i) j = s_mem s j /\ s_mem (s_remove s i) j = s_mem s j.
